@@ -149,7 +149,14 @@ class RecReactor(object):
 
         def fired(*a2, **kw2):
             mlog.event(self._clock, "fire %d" % tid, fire_id=tid)
-            return func(*a2, **kw2)
+            step = mlog.steps[-1]
+            r = func(*a2, **kw2)
+            if isinstance(func, LoopingCall):
+                # what `_scheduleFrom` computed (float arithmetic) is an external answer for the model
+                nxt = [o for st in mlog.steps[mlog.steps.index(step):] for o in st["obs"] if isinstance(o, list) and isinstance(o[1].func.v_func, LoopingCall)]
+                if nxt:
+                    step["ev"] = "fire %d %s" % (tid, show_frac(nxt[-1][2]))
+            return r
 
         fired.v_func = func
         dc = self._clock.callLater(delay, fired, *a, **kw)
@@ -586,9 +593,6 @@ def check_member(ctx, mlog, pid):
     dis = None
     for i, s in enumerate(steps):
         obs, snap, st = S.split_model_answer(ans[1 + i])
-        hb_art = any(o.startswith("setTimer") and " hb " in o and o.endswith(" 0") for o in s["obs"])
-        if hb_art:
-            break  # LoopingCall float artefact (see group_scen.CFGS): stop validating this member here
         if not obs_equal(s["obs"], obs) or (s["quiescent"] and snap != s["snap"]):
             dis = {"component": "group-fullstack", "member": mlog.name, "step": i, "event": s["ev"],
                    "scenario": {"cfg": scn["cfg"], "events": scn["events"][: i + 1]},
